@@ -7,10 +7,31 @@ CALLS = []
 FAIL = [True]
 
 
+PAYLOAD = [None]     # what the raised error carries: None (a plain ValueError) or something that cannot be pickled
+
+
+class Busy(ValueError):
+    """an error carrying a payload (the scheduler must still report THIS error and record the failure)"""
+
+    def __init__(self, msg, payload):
+        super().__init__(msg)
+        self.payload = payload
+
+
+def _gen():
+    yield 1
+
+
 def _body(name, x):
     CALLS.append(name)
     if FAIL[0]:
-        raise ValueError(f"boom-{name}-{x}")
+        kind = PAYLOAD[0]
+        if kind is None:
+            raise ValueError(f"boom-{name}-{x}")
+        import threading
+        payload = {"lock": threading.Lock, "file": lambda: open(__file__), "generator": _gen,
+                   "lambda": lambda: (lambda: 0)}[kind]()
+        raise Busy(f"boom-{name}-{x}", payload)
     return x + 1
 
 
